@@ -224,10 +224,48 @@ def core_check(prop, tier, seed_):
             "postanom": r["postanom"], "repo_head": common.repo_head()})
         print(f"VIOLATION property={prop} replay={path}")
         log(f"  {kname} {core.op_digest(r['op'])} -> {r['res']} clauses={own}")
+    if tier == "thorough" and prop in ("C01", "C02", "C03", "C04"):
+        sviol, sinfo = suite_trace(prop, tier)
+        cov["repository_test_suite_traced"] = sinfo
+        for (cls_, call_, own), r in sviol.items():
+            nviol += 1
+            path = common.write_replay(prop, {"property": prop, "direction": "suite", "clauses": list(own), "record": r,
+                                              "repo_head": common.repo_head()})
+            print(f"VIOLATION property={prop} replay={path}")
+            log(f"  suite: {cls_}.{call_} in {r['test']} clauses={list(own)}")
     cov["violation_classes"] = nviol
     common.write_evidence(prop, tier_=tier, seed_=seed_, coverage=cov, wall_s=t(), violations=nviol,
                           assumptions=ASSUMPTIONS)
     return 1 if nviol else 0
+
+
+def suite_trace(prop, tier):
+    """thorough tier: the repository's own test-suite runs under the tracing plugin; the states it
+    reaches are judged by the model's invariants (TraceInvH / TraceInvD).  Returns (violations, info)."""
+    import subprocess
+    import tempfile
+
+    out = os.path.join(tempfile.mkdtemp(prefix="suite-", dir=common.scratch()), "trace.ndjson")
+    env = dict(os.environ, XGI_VERIF_TRACE="1", XGI_VERIF_TRACE_OUT=out,
+               PYTHONPATH=common.VERIF + os.pathsep + common.REPO)
+    cmd = [sys.executable, "-m", "pytest", "-q", "-p", "no:cacheprovider", "-p", "harness.pytest_trace", "--timeout=900",
+           "--continue-on-collection-errors", "tests"]
+    p = subprocess.run(cmd, cwd=common.REPO, env=env, capture_output=True, text=True, timeout=3000)
+    recs = [json.loads(l) for l in open(out)] if os.path.exists(out) else []
+    if not recs:
+        raise MachineryError("suite tracing produced no record:\n" + p.stdout[-2000:])
+    und = [r for r in recs if r["cls"] != "DH"]
+    dire = [r for r in recs if r["cls"] == "DH"]
+    bad = common.validate_records(und, "TraceInvH")
+    bad.update(common.validate_records(dire, "TraceInvD"))
+    byrid = {r["rid"]: r for r in recs}
+    viol = {}
+    for rid, cl in bad.items():
+        own = [c for c in cl if c.startswith(prop + ":")]
+        if own:
+            viol.setdefault((byrid[rid]["cls"], byrid[rid]["call"], tuple(own)), byrid[rid])
+    return viol, {"suite_states_recorded": len(recs), "suite_summary": p.stdout.strip().split("\n")[-1][:200],
+                  "suite_states_with_verdicts": len(bad)}
 
 
 ASSUMPTIONS = [
